@@ -111,6 +111,8 @@ def unambiguous(regdefs, binary=False):
         padded = r["ident"].ljust(r["digits"])
         for i in range(j):
             e = regdefs[i]
+            if e["digits"] > r["digits"]:
+                return False      # an earlier, wider window would look into the later type's data columns
             if e["ident"] in padded[: e["digits"]]:
                 return False
     return True
